@@ -16,12 +16,23 @@ package tables
 //   W                        impl: wt=1 + the harness's own reflection walk of table refs
 //   B sql <adm> <grants>     impl: allow | deny <the check named in the 403 message>
 //   C tx <adm> <grants>      impl: allow/deny + the recorded sequence of AuthorizedFunc calls
+//   M <k> <tree>*k           impl: StatementKind + Tables() of each statement of a multi-statement @sql request
+//   D <adm> <grants>         impl: allow/deny of the WHOLE request (authorizeAndFormatStatements on the k
+//                            statements of the last M), the check named in the 403, and the number of
+//                            table-permission lookups made                 (model = Lean `authorizeBatch`)
 //
 // Direct oracle (no model): an independent reflection walk over the real AST (every field, not
 // Children()) + a hand-written target table per statement struct + SQLite EXPLAIN of the raw and the
 // formatted text give the tables the statement touches; for each of them exactly the matching
 // permission is withheld (everything else granted) and the real gate must answer 403; and every
 // table SQLite opens must appear in the recorded checks of the fully-granted run.
+//
+// Multi-statement @sql requests (2–4 statements: same and different tables, mixed kinds; a fixed corpus
+// first): for each (table, permission) that ANY statement of the request needs — the permission being
+// the one that statement's own kind calls for — exactly that one is withheld and the whole request must
+// be refused with nothing handed on for execution; under random grants, allowed ⇒ every need of every
+// statement was held.  A part of the batches is also POSTed to the real SQLTransaction handler on a real
+// SQLite database: a withheld permission must give 403 and leave every table as it was.
 
 import (
 	"database/sql"
@@ -385,13 +396,17 @@ type c15DSNIface interface {
 
 type c15DSN struct {
 	c15DSNIface
-	admin map[string]bool
-	trace *[]string
+	admin  map[string]bool
+	trace  *[]string
+	e2e    bool   // end-to-end leg: every user may open the DSN for reading and writing (database.Open)
+	dbfile string // … and the DSN names this SQLite file
 }
 
 func (s *c15DSN) AuthDSN(session int, user, dsn string, action dsns.DSNAction) bool {
 	if action == dsns.DSNAdminAction {
 		*s.trace = append(*s.trace, "A")
+	} else if s.e2e {
+		return true
 	}
 
 	return s.admin[user]
@@ -400,7 +415,7 @@ func (s *c15DSN) AuthDSN(session int, user, dsn string, action dsns.DSNAction) b
 func (s *c15DSN) ReadDSN(session int, user, name string, doNotLog bool) (defs.DSN, error) {
 	*s.trace = append(*s.trace, "R")
 
-	return defs.DSN{Name: name, Provider: defs.SqliteProvider, Restricted: true}, nil
+	return defs.DSN{Name: name, Provider: defs.SqliteProvider, Restricted: true, Database: s.dbfile}, nil
 }
 
 // ------------------------------------------------------------------ SQL generator
@@ -1201,6 +1216,100 @@ var c15Corpus = []string{
 	`PG:DROP TABLE t0 CASCADE`,
 }
 
+// ------------------------------------------------------------------ multi-statement @sql requests
+
+var c15PlainTables = []string{"t0", "t1", "t2", "secret"}
+
+// simple: one small DML / SELECT statement on table tb (valid against the fixed schema, so the
+// end-to-end leg can really execute it), sometimes reading a second table.
+func (g *c15Gen) simple(tb string) string {
+	other := g.pick(c15PlainTables)
+	n := strconv.Itoa(1 + g.r.Intn(5))
+
+	where := ""
+	if g.p(60) {
+		where = " WHERE id " + g.pick([]string{"=", "<", ">=", "<>"}) + " " + n
+	}
+
+	switch g.r.Intn(11) {
+	case 0, 1:
+		return "INSERT INTO " + tb + " (a, b) VALUES (" + n + ", 's" + n + "')"
+	case 2:
+		return "INSERT INTO " + tb + " (a, b) SELECT a, b FROM " + other + where
+	case 3, 4:
+		return "UPDATE " + tb + " SET a = " + n + where
+	case 5:
+		return "UPDATE " + tb + " SET b = (SELECT max(x) FROM " + other + ")" + where
+	case 6, 7:
+		return "DELETE FROM " + tb + where
+	case 8:
+		return "DELETE FROM " + tb + " WHERE a IN (SELECT a FROM " + other + ")"
+	case 9:
+		return "SELECT a, b FROM " + tb + where
+	default:
+		return "SELECT count(*) FROM " + tb + " WHERE a IN (SELECT a FROM " + other + ")"
+	}
+}
+
+// batchTexts: the 2–4 statements of one @sql request.  Most statements work on one focus table (so
+// that the same table is inserted into, updated, deleted from and read by different statements of the
+// request); the rest use other tables or come from the full statement generator (DDL included).
+// executable = only plain statements on the plain tables, a SELECT only in last position.
+func (g *c15Gen) batchTexts(executable bool) []string {
+	k := 2 + g.r.Intn(3)
+	tabs := c15PlainTables
+
+	if !executable && g.p(30) {
+		tabs = c15Tables
+	}
+
+	focus := g.pick(tabs)
+	out := make([]string, 0, k)
+
+	for len(out) < k {
+		var s string
+
+		switch r := g.r.Intn(100); {
+		case r < 60:
+			s = g.simple(focus)
+		case r < 82 || executable:
+			s = g.simple(g.pick(tabs))
+		default:
+			s = g.stmt()
+		}
+
+		if executable && len(out) < k-1 && strings.HasPrefix(s, "SELECT") {
+			continue
+		}
+
+		out = append(out, s)
+	}
+
+	return out
+}
+
+// requests that run first: every ordered pair of write kinds on one table, the same table under two
+// spellings, reads mixed in, DDL next to DML, three and four statements.
+var c15BatchCorpus = [][]string{
+	{`INSERT INTO t0 (a) VALUES (1)`, `DELETE FROM t0`},
+	{`INSERT INTO t0 (a) VALUES (1)`, `UPDATE t0 SET a = 2`},
+	{`UPDATE t0 SET a = 2`, `INSERT INTO t0 (a) VALUES (1)`},
+	{`UPDATE t0 SET a = 2`, `DELETE FROM t0 WHERE id = 1`},
+	{`DELETE FROM t0 WHERE id = 1`, `INSERT INTO t0 (a) VALUES (1)`},
+	{`DELETE FROM t0 WHERE id = 1`, `UPDATE t0 SET a = 2`},
+	{`INSERT INTO main.t1 (a) VALUES (1)`, `DELETE FROM t1`},
+	{`INSERT INTO "Mixed Case" (a) VALUES (1)`, `UPDATE "Mixed Case" SET a = 2`, `DELETE FROM "Mixed Case"`},
+	{`SELECT a FROM secret`, `SELECT a FROM secret WHERE id = 1`},
+	{`INSERT INTO t0 (a) SELECT a FROM secret`, `DELETE FROM secret`},
+	{`DELETE FROM t0 WHERE a IN (SELECT a FROM secret)`, `UPDATE secret SET a = 1`, `SELECT a FROM t0`},
+	{`INSERT INTO t0 (a) VALUES (1)`, `INSERT INTO t1 (a) VALUES (1)`, `UPDATE t1 SET a = 2`, `DELETE FROM t0`},
+	{`CREATE TABLE n0 (a INTEGER)`, `INSERT INTO n0 (a) VALUES (1)`, `DROP TABLE t0`},
+	{`DROP INDEX idx0`, `DELETE FROM t0`},
+	{`INSERT INTO t0 (a) VALUES (1)`, `SELECT * FROM t0; DROP TABLE secret`},
+	{`BEGIN`, `INSERT INTO t0 (a) VALUES (1)`, `UPDATE t0 SET a = 3`, `COMMIT`},
+	{`UPDATE t0 SET a = (SELECT max(x) FROM secret)`, `UPDATE secret SET a = (SELECT max(x) FROM t0)`},
+}
+
 // ------------------------------------------------------------------ SQLite EXPLAIN evidence
 
 type c15Explain struct {
@@ -1446,7 +1555,8 @@ func TestVerifC15(t *testing.T) {
 			perms = append(perms, defs.DSNAdminPermission)
 		}
 
-		return &router.Session{ID: 7, User: userFor(p), Admin: false, Permissions: perms, Language: "en"}
+		return &router.Session{ID: 7, User: userFor(p), Admin: false, Permissions: perms, Language: "en",
+			URLParts: map[string]any{"dsn": "d1"}}
 	}
 
 	ex := c15OpenExplain(t)
@@ -1459,6 +1569,31 @@ func TestVerifC15(t *testing.T) {
 	// deny messages of the @sql gate, to recover which check failed there
 	denyMsg := func(table, perm string) string {
 		return i18n.Text("en", "error.sql.perm.table", ui.A{"table": table, "permission": perm})
+	}
+
+	// whichCheck recovers, from the 403 body of the @sql gate, the check that failed
+	whichCheck := func(rr *httptest.ResponseRecorder, cands []string) string {
+		var resp defs.RestStatusResponse
+
+		_ = json.Unmarshal(rr.Body.Bytes(), &resp)
+
+		if resp.Message == denyMsg("", defs.DSNAdminPermission) {
+			return "A"
+		}
+
+		for _, c := range cands {
+			for _, pm := range append(append([]string{}, c15TablePerms...), defs.DSNAdminPermission) {
+				if resp.Message == denyMsg(c, pm) {
+					if pm == defs.DSNAdminPermission {
+						return "A"
+					}
+
+					return "T:" + verifh.Hex(c) + ":" + c15PermName[pm]
+				}
+			}
+		}
+
+		return "?"
 	}
 
 	// runSQL: the real @sql gate.  Returns allow, the failing check ("" if none) and the trace shape.
@@ -1477,27 +1612,7 @@ func TestVerifC15(t *testing.T) {
 			return true, "", status
 		}
 
-		var resp defs.RestStatusResponse
-
-		_ = json.Unmarshal(rr.Body.Bytes(), &resp)
-
-		if resp.Message == denyMsg("", defs.DSNAdminPermission) {
-			return false, "A", status
-		}
-
-		for _, c := range cands {
-			for _, pm := range append(c15TablePerms, defs.DSNAdminPermission) {
-				if resp.Message == denyMsg(c, pm) {
-					if pm == defs.DSNAdminPermission {
-						return false, "A", status
-					}
-
-					return false, "T:" + verifh.Hex(c) + ":" + c15PermName[pm], status
-				}
-			}
-		}
-
-		return false, "?", status
+		return false, whichCheck(rr, cands), status
 	}
 
 	// runTx: the real @transaction "sql" gate; the exact sequence of checks is recorded.
@@ -1525,6 +1640,25 @@ func TestVerifC15(t *testing.T) {
 		}
 
 		return p
+	}
+
+	// keep the real store small: the profiles of a statement / request are not needed again
+	trimUsers := func() {
+		if len(users) > 200 {
+			if _, err := pHandle.Database.Exec("DELETE FROM table_perms"); err != nil {
+				t.Fatalf("reset perms: %v", err)
+			}
+
+			for k := range users {
+				delete(users, k)
+			}
+
+			for k := range stub.admin {
+				delete(stub.admin, k)
+			}
+
+			c15UserSeq += 1000
+		}
 	}
 
 	one := func(dialect int, text string) {
@@ -1845,22 +1979,484 @@ func TestVerifC15(t *testing.T) {
 			stats.Sample(map[string]any{"sql": text, "tables": fmt.Sprint(usages)})
 		}
 
-		// keep the real store small: the profiles of this statement are not needed again
-		if len(users) > 200 {
-			if _, err := pHandle.Database.Exec("DELETE FROM table_perms"); err != nil {
-				t.Fatalf("reset perms: %v", err)
-			}
+		trimUsers()
+	}
 
-			for k := range users {
-				delete(users, k)
-			}
+	// ------------------------------------------------------------ multi-statement @sql requests
+	type c15Parsed struct {
+		p         *sqlparse.Sqlparse
+		needs     []c15Need
+		writePerm string
+	}
 
-			for k := range stub.admin {
-				delete(stub.admin, k)
-			}
+	// a requirement of a request: (table, permission) — perm "" = DSN-admin — with the first statement
+	// that needs it
+	type c15Req struct {
+		table, perm string
+		stmt        int
+		need        c15Need
+	}
 
-			c15UserSeq += 1000
+	bModeCh := map[sqlparse.UsageMode]string{sqlparse.UsageRead: "r", sqlparse.UsageWrite: "w", sqlparse.UsageAdmin: "a"}
+
+	usageStr := func(usages []sqlparse.TableUsage) string {
+		if len(usages) == 0 {
+			return "-"
 		}
+
+		us := make([]string, len(usages))
+		for i, u := range usages {
+			us[i] = verifh.Hex(u.Name) + ":" + bModeCh[u.Usage]
+		}
+
+		return strings.Join(us, ",")
+	}
+
+	permOf := func(ps c15Parsed, n c15Need) string {
+		switch n.mode {
+		case "r":
+			return defs.TableReadPermission
+		case "w":
+			return ps.writePerm
+		}
+
+		return ""
+	}
+
+	// parseBatch: every statement parsed with its needs, or ok=false
+	parseBatch := func(dialect int, texts []string) (out []c15Parsed, reqs []c15Req, pool map[string]bool, ok bool) {
+		pool = map[string]bool{}
+		have := map[string]bool{}
+
+		for i, tx := range texts {
+			p, err := sqlparse.New(tx, dialect)
+			if err != nil {
+				return nil, nil, nil, false
+			}
+
+			needs, writePerm, _ := c15Needs(p.Statement())
+			ps := c15Parsed{p: p, needs: needs, writePerm: writePerm}
+			out = append(out, ps)
+
+			for _, n := range needs {
+				pool[n.table] = true
+				r := c15Req{table: n.table, perm: permOf(ps, n), stmt: i, need: n}
+
+				if r.perm == "" {
+					r.table = ""
+				}
+
+				if k := r.table + "\x00" + r.perm; !have[k] {
+					have[k] = true
+					reqs = append(reqs, r)
+				}
+			}
+
+			for _, u := range p.Tables() {
+				pool[c15Base(u.Name)] = true
+			}
+		}
+
+		return out, reqs, pool, true
+	}
+
+	without := func(pool map[string]bool, r c15Req) *c15Profile {
+		pr := fullProfile(pool)
+		pr.viaDSN = c15Rng.Intn(2) == 0
+
+		if r.perm == "" {
+			pr.dsnAdmin = false
+		} else {
+			delete(pr.grants, c15Grant{r.table, r.perm})
+		}
+
+		return pr
+	}
+
+	reqText := func(r c15Req) string {
+		if r.perm == "" {
+			return "DSN-admin"
+		}
+
+		return c15PermName[r.perm] + " on " + r.table
+	}
+
+	// runBatch: the real @sql gate on the whole request.  Returns allow, the failing check, the number
+	// of table-permission lookups (Authorized() reads the DSN exactly once per call) and whether a
+	// refused request still returned statements to execute.
+	runBatch := func(p *c15Profile, dialect int, texts []string, cands []string) (bool, string, int, bool) {
+		provider := defs.SqliteProvider
+
+		if dialect == sqlparse.PostgreSQL {
+			provider = defs.PostgresProvider
+		}
+
+		s := session(p)
+		rr := httptest.NewRecorder()
+		trace = trace[:0]
+		formatted, kinds, status := authorizeAndFormatStatements(s, &database.Database{DSN: "d1", Provider: provider},
+			append([]string{}, texts...), rr)
+
+		lookups := 0
+
+		for _, e := range trace {
+			if e == "R" {
+				lookups++
+			}
+		}
+
+		if status <= http.StatusOK {
+			return true, "", lookups, false
+		}
+
+		return false, whichCheck(rr, cands), lookups, formatted != nil || kinds != nil
+	}
+
+	batchKey := func(dialect int, texts []string) string {
+		js, _ := json.Marshal(texts)
+
+		return "batch " + strconv.Itoa(dialect) + " " + string(js)
+	}
+
+	nontrivialBatch := map[string]bool{}
+
+	var batchSamples []any // the 8 slots of stats.Sample are taken by single statements
+
+	batch := func(dialect int, texts []string) {
+		key := batchKey(dialect, texts)
+		if seen[key] {
+			stats.Inc("batch_duplicate")
+
+			return
+		}
+
+		seen[key] = true
+		stats.Inc("batches")
+
+		parsed, reqs, pool, ok := parseBatch(dialect, texts)
+		if !ok {
+			stats.Inc("batch_parse_error")
+
+			// one statement does not parse: a non-admin's request must be refused as a whole
+			prof := fullProfile(map[string]bool{"t0": true, "t1": true, "t2": true, "secret": true})
+			if allowed, _, _, _ := runBatch(prof, dialect, texts, nil); allowed {
+				fails.Write(verifh.Failure{Class: "unparsed-allowed",
+					What: "@sql gate allowed a multi-statement request one statement of which does not parse", Input: key})
+			}
+
+			return
+		}
+
+		// ---- correspondence M: kind + Tables() of every statement vs the model on the reflection dumps
+		var (
+			b     strings.Builder
+			impls []string
+		)
+
+		b.WriteString("M " + strconv.Itoa(len(parsed)))
+
+		for _, ps := range parsed {
+			b.WriteByte(' ')
+			c15Dump(reflect.ValueOf(ps.p.Statement()), &b, reflTypes)
+			impls = append(impls, c15KindName[ps.p.StatementKind()]+" "+usageStr(ps.p.Tables()))
+		}
+
+		cases.Write(verifh.Case{In: b.String(), Impl: strings.Join(impls, "|"), Desc: key})
+
+		// non-trivial: some table is needed under two different permissions by the statements of the request
+		permsOf := map[string]map[string]bool{}
+
+		for _, r := range reqs {
+			if permsOf[r.table] == nil {
+				permsOf[r.table] = map[string]bool{}
+			}
+
+			permsOf[r.table][r.perm] = true
+		}
+
+		for _, m := range permsOf {
+			if len(m) > 1 {
+				nontrivialBatch[key] = true
+			}
+		}
+
+		var cands []string
+		for tb := range pool {
+			cands = append(cands, tb)
+		}
+
+		sort.Strings(cands)
+
+		type run struct {
+			prof     *c15Profile
+			withheld *c15Req
+		}
+
+		full := fullProfile(pool)
+		full.viaDSN = c15Rng.Intn(2) == 0
+		runs := []run{{prof: full}}
+
+		// withhold exactly one (table, permission) that some statement of the request needs
+		for i := range reqs {
+			if len(runs) > 12 {
+				break
+			}
+
+			runs = append(runs, run{prof: without(pool, reqs[i]), withheld: &reqs[i]})
+		}
+
+		// two random grant sets
+		for _, pct := range []int{80, 94} {
+			rp := &c15Profile{grants: map[c15Grant]bool{}, dsnAdmin: c15Rng.Intn(4) > 0, viaDSN: c15Rng.Intn(2) == 0}
+
+			for _, tb := range cands {
+				for _, pm := range c15TablePerms {
+					if c15Rng.Intn(100) < pct {
+						rp.grants[c15Grant{tb, pm}] = true
+					}
+				}
+			}
+
+			runs = append(runs, run{prof: rp})
+		}
+
+		for ri, r := range runs {
+			stats.Inc("batch_authz_runs")
+
+			allowed, failing, lookups, leaked := runBatch(r.prof, dialect, texts, cands)
+			impl := "allow " + strconv.Itoa(lookups)
+
+			if !allowed {
+				impl = "deny " + failing + " " + strconv.Itoa(lookups)
+			}
+
+			cases.Write(verifh.Case{In: "D " + r.prof.protocol(), Impl: impl})
+
+			if allowed {
+				stats.Inc("batch_allowed")
+			}
+
+			if leaked {
+				fails.Write(verifh.Failure{Class: "batch-refused-but-returned",
+					What: "the @sql gate refused the request but returned statements to execute", Input: key,
+					Got: "under " + r.prof.protocol()})
+			}
+
+			// (b) one needed permission withheld ⇒ the whole request must be refused
+			if r.withheld != nil && allowed {
+				w := r.withheld
+				stats.Inc("fail:batch:" + w.need.class)
+				fails.Write(verifh.Failure{Class: "batch:" + w.need.class,
+					What:  "multi-statement @sql request allowed although a permission one of its statements needs was withheld",
+					Input: key,
+					Got:   "allowed (every other permission on " + strings.Join(cands, ",") + " granted)",
+					Want:  "403 without " + reqText(*w) + ", needed by statement #" + strconv.Itoa(w.stmt) + ": " + texts[w.stmt]})
+			}
+
+			// (c) allowed ⇒ every need of every statement is held (full and random grant sets)
+			if allowed && r.withheld == nil {
+				for si, ps := range parsed {
+					for _, n := range ps.needs {
+						held := r.prof.dsnAdmin
+						if n.mode != "a" {
+							held = r.prof.grants[c15Grant{n.table, permOf(ps, n)}]
+						}
+
+						if !held {
+							stats.Inc("fail:batch:" + n.class)
+							fails.Write(verifh.Failure{Class: "batch:" + n.class,
+								What:  "multi-statement @sql request allowed without a permission one of its statements needs",
+								Input: key, Got: "allowed under " + r.prof.protocol(),
+								Want: reqText(c15Req{table: n.table, perm: permOf(ps, n)}) + " for statement #" + strconv.Itoa(si) + ": " + texts[si]})
+						}
+					}
+				}
+			}
+
+			if ri == 0 && !allowed {
+				stats.Inc("batch_full_grant_denied")
+			}
+		}
+
+		if nontrivialBatch[key] && len(nontrivialBatch)%40 == 1 && len(batchSamples) < 4 {
+			batchSamples = append(batchSamples, map[string]any{"batch": texts, "dialect": dialect})
+		}
+
+		trimUsers()
+	}
+
+	// ---- end to end: the same oracle through the real SQLTransaction handler on a real SQLite database
+	shm := outDir
+	if st, err := os.Stat("/dev/shm"); err == nil && st.IsDir() {
+		if d, err := os.MkdirTemp("/dev/shm", "verif-c15-"); err == nil {
+			shm = d
+
+			defer os.RemoveAll(d)
+		}
+	}
+
+	dataFile := filepath.Join(shm, "c15_data.db")
+	for _, sfx := range []string{"", "-wal", "-shm"} {
+		_ = os.Remove(dataFile + sfx)
+	}
+
+	obs, err := sql.Open("sqlite", dataFile)
+	if err != nil {
+		t.Fatalf("open data db: %v", err)
+	}
+
+	obs.SetMaxOpenConns(1)
+
+	defer func() {
+		_ = obs.Close()
+
+		for _, sfx := range []string{"", "-wal", "-shm"} {
+			_ = os.Remove(dataFile + sfx)
+		}
+	}()
+
+	for _, q := range []string{"PRAGMA journal_mode=WAL", "PRAGMA synchronous=OFF", "PRAGMA busy_timeout=5000"} {
+		if _, err := obs.Exec(q); err != nil {
+			t.Fatalf("data db %q: %v", q, err)
+		}
+	}
+
+	for _, tb := range c15PlainTables {
+		if _, err := obs.Exec("CREATE TABLE " + tb + " (id INTEGER PRIMARY KEY, a, b, c, x, y)"); err != nil {
+			t.Fatalf("data db create %s: %v", tb, err)
+		}
+	}
+
+	resetData := func() {
+		tx, err := obs.Begin()
+		if err != nil {
+			t.Fatalf("data db begin: %v", err)
+		}
+
+		for _, tb := range c15PlainTables {
+			if _, err := tx.Exec("DELETE FROM " + tb); err != nil {
+				t.Fatalf("data db reset %s: %v", tb, err)
+			}
+
+			if _, err := tx.Exec("INSERT INTO " + tb + " (id, a, b, c, x, y) VALUES (1, 1, 's1', 0, 10, 0), (2, 2, 's2', 0, 20, 0), (3, 3, 's3', 0, 30, 0)"); err != nil {
+				t.Fatalf("data db fill %s: %v", tb, err)
+			}
+		}
+
+		if err := tx.Commit(); err != nil {
+			t.Fatalf("data db commit: %v", err)
+		}
+	}
+
+	snapshot := func() string {
+		var b strings.Builder
+
+		for _, q := range append([]string{"SELECT name, 0, 0, 0, 0, 0 FROM sqlite_master ORDER BY name"}, c15PlainTables...) {
+			if !strings.HasPrefix(q, "SELECT") {
+				b.WriteString("[" + q + "]")
+				q = "SELECT id, a, b, c, x, y FROM " + q + " ORDER BY id"
+			}
+
+			rows, err := obs.Query(q)
+			if err != nil {
+				t.Fatalf("data db snapshot %q: %v", q, err)
+			}
+
+			for rows.Next() {
+				var v [6]sql.NullString
+
+				if err := rows.Scan(&v[0], &v[1], &v[2], &v[3], &v[4], &v[5]); err != nil {
+					t.Fatalf("data db scan: %v", err)
+				}
+
+				for _, x := range v {
+					b.WriteString(x.String + ",")
+				}
+
+				b.WriteByte(';')
+			}
+
+			_ = rows.Close()
+		}
+
+		return b.String()
+	}
+
+	post := func(p *c15Profile, texts []string, asText bool) int {
+		var body []byte
+
+		if asText {
+			body, _ = json.Marshal(strings.Join(texts, ";\n"))
+		} else {
+			body, _ = json.Marshal(texts)
+		}
+
+		req := httptest.NewRequest(http.MethodPost, "/dsns/d1/tables/@sql", strings.NewReader(string(body)))
+		rr := httptest.NewRecorder()
+
+		return SQLTransaction(session(p), rr, req)
+	}
+
+	e2e := func(texts []string, asText bool) {
+		key := batchKey(sqlparse.SQLite, texts)
+
+		_, reqs, pool, ok := parseBatch(sqlparse.SQLite, texts)
+		if !ok {
+			return
+		}
+
+		stats.Inc("e2e_batches")
+
+		stub.e2e, stub.dbfile = true, dataFile
+
+		defer func() { stub.e2e, stub.dbfile = false, "" }()
+
+		for i := range reqs {
+			if i >= 6 {
+				break
+			}
+
+			resetData()
+
+			before := snapshot()
+			status := post(without(pool, reqs[i]), texts, asText)
+			after := snapshot()
+
+			stats.Inc("e2e_withheld_runs")
+
+			if status != http.StatusForbidden || before != after {
+				w := reqs[i]
+				got := "status " + strconv.Itoa(status)
+
+				if before != after {
+					got += "; the tables changed: before " + before + " after " + after
+				}
+
+				stats.Inc("fail:batch-e2e:" + w.need.class)
+				fails.Write(verifh.Failure{Class: "batch-e2e:" + w.need.class,
+					What:  "POST @sql (SQLTransaction) with several statements was not refused, or executed something, although a permission one statement needs was withheld",
+					Input: key, Got: got,
+					Want: "403 and no change without " + reqText(w) + ", needed by statement #" + strconv.Itoa(w.stmt) + ": " + texts[w.stmt]})
+			}
+		}
+
+		// with everything granted the request really runs (the refusals above are not vacuous)
+		resetData()
+
+		before := snapshot()
+		status := post(fullProfile(pool), texts, asText)
+
+		if status == http.StatusOK {
+			stats.Inc("e2e_executed")
+
+			if snapshot() != before {
+				stats.Inc("e2e_executed_changed_data")
+			}
+		} else {
+			stats.Inc("e2e_full_grant_status_" + strconv.Itoa(status))
+		}
+
+		trimUsers()
 	}
 
 	// ---- replay, corpus, generated, hostile
@@ -1873,6 +2469,17 @@ func TestVerifC15(t *testing.T) {
 
 		if json.Unmarshal(rp, &v) == nil {
 			for _, f := range v.Failures {
+				if rest, ok := strings.CutPrefix(f.Input, "batch "); ok {
+					var texts []string
+
+					if i := strings.Index(rest, " "); i > 0 && json.Unmarshal([]byte(rest[i+1:]), &texts) == nil {
+						d, _ := strconv.Atoi(rest[:i])
+						batch(d, texts)
+					}
+
+					continue
+				}
+
 				if i := strings.Index(f.Input, "|"); i > 0 {
 					d, _ := strconv.Atoi(f.Input[:i])
 					one(d, f.Input[i+1:])
@@ -1909,6 +2516,37 @@ func TestVerifC15(t *testing.T) {
 			one(dialect, g.stmt())
 		}
 	}
+
+	// ---- multi-statement requests: fixed corpus, generated (both dialects), end to end
+	for _, texts := range c15BatchCorpus {
+		batch(sqlparse.SQLite, texts)
+		batch(sqlparse.PostgreSQL, texts)
+	}
+
+	gb := &c15Gen{r: verifh.Rand(1516)}
+
+	for i, nb := 0, verifh.N(400, 4000); i < nb; i++ {
+		gb.pg = gb.r.Intn(3) == 0
+		dialect := sqlparse.SQLite
+
+		if gb.pg {
+			dialect = sqlparse.PostgreSQL
+		}
+
+		batch(dialect, gb.batchTexts(false))
+	}
+
+	for i, ne := 0, verifh.N(30, 250); i < ne; i++ {
+		gb.pg = false
+
+		e2e(gb.batchTexts(true), i%2 == 1)
+	}
+
+	stats.Add("batch_distinct_nontrivial", len(nontrivialBatch))
+
+	bw := verifh.Out("c15_batch_samples.json")
+	bw.Write(batchSamples)
+	bw.Close()
 
 	// ---- the reflection-derived schema, for the cross-check against the translator
 	type rf struct {
